@@ -105,6 +105,15 @@ def run(pid, tier, args):
         v.notes["runs"] = {"compared": stats[0], "tolerated": stats[1], "tolerated_really_differ": stats[2], "definitions_with_differences": len(seen)}
         if not replay and stats[1] == 0:
             raise Infra("vacuity: no tolerated run in the family")
+        if not replay and "G9" in byid:
+            # a long flat run of consecutive ignored tokens: the generated lexer must cope like the runtime lexer (bounded stack)
+            pr = subprocess.run([vhgen, "gen-deep", rawpath, "G9", "cn", str(200000 if tier == "quick" else 2000000), str(4 << 20)], stdout=subprocess.PIPE, stderr=subprocess.PIPE, timeout=900)
+            so = pr.stdout.decode("utf8", "replace").strip().splitlines()
+            res_ = dict(l.split("\t") for l in so if "\t" in l)
+            if pr.returncode != 0 or res_.get("generated") != res_.get("runtime") or "runtime" not in res_:
+                v.violation("definition G9 on a run of %s ignored tokens under a 4 MiB stack: runtime %s, generated %s %s" % ("400000" if tier == "quick" else "4000000", res_.get("runtime"), res_.get("generated"), pr.stderr.decode("utf8", "replace")[:150].replace("\n", " ")),
+                            {"property": pid, "kind": "gen-deep", "case": byid["G9"], "runtime": res_.get("runtime"), "generated": res_.get("generated")})
+            v.validated(1)
         if not replay:
             # C04 clauses on the generated lexers
             tf = os.path.join(wd, "gen.ndjson")
